@@ -23,6 +23,7 @@ the layout and the round trip on the real bytes with an independent reference re
 import MilaModel.Model.TextArchive
 import MilaModel.Lemmas.TextUtf
 import MilaModel.Lemmas.TextLayout
+import MilaModel.Lemmas.ComposeBin
 
 namespace Mila.Props.C06
 open Mila Mila.TextArchive Mila.BinArchive
@@ -308,5 +309,129 @@ example :
     binRoundTripHolds c ⟨[], [([107, 49], [121, 122, 122, 122])], false, .shiftJIS, .little⟩ = true ∧
     binRoundTripHolds c ⟨[], [], false, .shiftJIS, .big⟩ = true := by
   decide +kernel
+
+/-! ### composition with C01: the hypothesis `hC01` discharged
+
+The archive `serialize` builds consists of data and labels only (no string, pointer or c-string
+cell), one single-name bucket per message address, addresses strictly ascending inside the data: it
+is in C01's quantifier, so `C01.parse_serialize` applies and — no cell being annotated — the whole
+data block and every label bucket survive.  Besides C06's own domain the composed theorem needs the
+*keys* to be representable (they are stored as label names in the archive's Shift-JIS text section,
+whatever the message format) and the 32-bit format's size limit on the image. -/
+
+/-- The archive `serialize` builds, explicitly. -/
+private theorem buildArchive_eq (c : Codec) (D : Str → Prop) (hc : c.Faithful D) (t : TextArchive)
+    (hd : InDomain D t) :
+    ∃ pre, pre.length % 4 = 0 ∧
+      buildArchive c t = .ok (built c t.format t.endian pre t.entries) := by
+  obtain ⟨title, entries, dirty, format, endian⟩ := t
+  obtain ⟨hk, ht, hm⟩ := hd
+  simp only at hk ht hm
+  have hg : ∀ p ∈ entries, GoodMsg c format p.2 := fun p hp => good_of_domain hc (hm p hp)
+  cases format with
+  | shiftJIS =>
+    obtain ⟨hb, _⟩ := build_core c .shiftJIS endian [] entries rfl hg
+    refine ⟨[], rfl, ?_⟩
+    simp only [buildArchive, buildData]
+    rw [writeEntries_good c .shiftJIS entries hg [] [] rfl]
+    exact hb
+  | unicode =>
+    have hgt : GoodMsg c .shiftJIS title := hc title (ht rfl)
+    have hpre : (blockOf c .shiftJIS title).length % 4 = 0 := blockOf_length_mod _ _ _
+    obtain ⟨hb, _⟩ := build_core c .unicode endian (blockOf c .shiftJIS title) entries hpre hg
+    refine ⟨blockOf c .shiftJIS title, hpre, ?_⟩
+    have hw : writeSjisString c [] title = .ok ([] ++ blockOf c .shiftJIS title) :=
+      writeMessage_good c .shiftJIS [] title hgt rfl
+    simp only [buildArchive, buildData, hw, List.nil_append]
+    rw [writeEntries_good c .unicode entries hg _ [] hpre]
+    exact hb
+
+private theorem built_archWF (c : Codec) (f : TextFormat) (e : Endian) (pre : Bytes)
+    (es : List (Str × Str)) : Ser.ArchWF (built c f e pre es) where
+  inside := by intro x hx; simp [Ser.archCells, built, BinArchive.new] at hx
+  disjoint := by simp [Ser.archCells, built, BinArchive.new]
+  targets := by intro p hp; simp [built, BinArchive.new] at hp
+  labelKeys := by
+    show (((labelInfo c f pre.length es).map (fun p => (p.2, [p.1]))).map (·.1)).Nodup
+    rw [List.map_map, List.Nodup, List.pairwise_map]
+    apply (labelInfo_sorted c f es pre.length).imp
+    intro p q h; exact Nat.ne_of_lt h
+  labelAddrs := by
+    intro p hp
+    obtain ⟨q, hq, rfl⟩ := List.mem_map.mp (show p ∈ (labelInfo c f pre.length es).map _ from hp)
+    have := (labelInfo_bounds c f es pre.length q hq).2.1
+    show q.2 ≤ (pre ++ image c f es).length
+    rw [List.length_append]; omega
+
+private theorem built_inDomain (c : Codec) (D : Str → Prop) (f : TextFormat) (e : Endian) (pre : Bytes)
+    (es : List (Str × Str)) (hkeys : ∀ k ∈ keysOf es, D k) : Ser.InDomain D (built c f e pre es) where
+  text := by intro p hp; simp [built, BinArchive.new] at hp
+  labels := by
+    intro p hp n hn
+    obtain ⟨q, hq, rfl⟩ := List.mem_map.mp (show p ∈ (labelInfo c f pre.length es).map _ from hp)
+    simp only [List.mem_singleton] at hn
+    subst hn
+    apply hkeys
+    rw [← labelInfo_keys c f es pre.length]
+    exact List.mem_map_of_mem hq
+  cstrings := by intro p hp; simp [built, BinArchive.new] at hp
+
+/-- **C01 instantiated** at the archive `serialize` builds: its image parses back (same endianness)
+to an archive with the same data block and the same labels at every address. -/
+theorem text_bin_roundtrip (c : Codec) (D : Str → Prop) (hc : c.Faithful D) (t : TextArchive)
+    (hd : InDomain D t) (hkeys : ∀ k ∈ keysOf t.entries, D k) :
+    ∀ a, buildArchive c t = .ok a → Ser.imageSize c a < 2 ^ 32 →
+      ∃ bytes a', BinArchive.serialize c a = .ok bytes ∧ BinArchive.parse c t.endian bytes = .ok a' ∧
+        a'.data = a.data ∧ ∀ x, UMap.get a'.labels x = UMap.get a.labels x := by
+  intro a ha small
+  obtain ⟨pre, _, hb⟩ := buildArchive_eq c D hc t hd
+  rw [ha] at hb
+  cases hb
+  have wf := built_archWF c t.format t.endian pre t.entries
+  have dom := built_inDomain c D t.format t.endian pre t.entries hkeys
+  obtain ⟨bytes, b, hs, hp, hconf, hpar⟩ :=
+    Ser.parse_serialize c D _ wf hc dom small
+  have rt : Ser.RoundTrip c D (built c t.format t.endian pre t.entries) bytes b :=
+    ⟨wf, hc, dom, hconf, hpar⟩
+  refine ⟨bytes, b, hs, hp, Compose.data_eq_of_roundTrip rt rfl rfl rfl,
+    Compose.rt_labels_get rt ?_⟩
+  intro p hp'
+  obtain ⟨q, _, rfl⟩ := List.mem_map.mp (show p ∈ (labelInfo c t.format pre.length t.entries).map _ from hp')
+  simp
+
+/-- **Round trip through bytes, unconditional**: for every in-domain text archive whose keys are
+representable and whose image stays below 4 GiB, `serialize` succeeds and
+`from_bytes (serialize t) = t` (title in the UTF-16 format, keys in order, every message; dirty flag
+clear) — both formats, both endiannesses. -/
+theorem text_roundtrip (c : Codec) (D : Str → Prop) (hc : c.Faithful D) (t : TextArchive)
+    (hd : InDomain D t) (hkeys : ∀ k ∈ keysOf t.entries, D k)
+    (small : ∀ a, buildArchive c t = .ok a → Ser.imageSize c a < 2 ^ 32) :
+    ∃ bytes, TextArchive.serialize c t = .ok bytes ∧
+      TextArchive.fromBytes c bytes t.format t.endian = .ok (expected t) :=
+  text_roundtrip_given_bin_roundtrip c D hc t hd
+    (fun a ha => text_bin_roundtrip c D hc t hd hkeys a ha (small a ha))
+
+/-- Non-vacuity of `text_roundtrip`: all its hypotheses hold of a concrete UTF-16 big-endian archive
+with a title and one entry, over the identity codec on NUL-free strings (the size of the image is
+evaluated in the kernel). -/
+example :
+    let c : Codec := ⟨fun s => some s, id⟩
+    let D : Str → Prop := fun s => (0 : UInt8) ∉ s
+    let t : TextArchive := ⟨[84], [([107], [104, 105])], false, .unicode, .big⟩
+    c.Faithful D ∧ InDomain D t ∧ (∀ k ∈ keysOf t.entries, D k) ∧
+      ∀ a, buildArchive c t = .ok a → Ser.imageSize c a < 2 ^ 32 := by
+  refine ⟨fun s hs => ⟨s, rfl, hs, rfl⟩,
+    { keys_distinct := by decide, title := fun _ => by decide, messages := ?_ }, by decide, ?_⟩
+  · intro p hp
+    simp only [List.mem_cons, List.mem_nil_iff, or_false] at hp
+    subst hp
+    exact ⟨[104, 105], by decide, by decide +kernel⟩
+  · intro a ha
+    have h : (match buildArchive (⟨fun s => some s, id⟩ : Codec)
+          ⟨[84], [([107], [104, 105])], false, .unicode, .big⟩ with
+        | .ok a => decide (Ser.imageSize ⟨fun s => some s, id⟩ a < 2 ^ 32)
+        | _ => false) = true := by decide +kernel
+    rw [ha] at h
+    simpa using h
 
 end Mila.Props.C06
